@@ -5,6 +5,7 @@ import (
 	"errors"
 	"fmt"
 	"net/netip"
+	"os"
 	"path/filepath"
 	"strings"
 
@@ -161,11 +162,62 @@ func buildImpl(c Case, poolDir string) (*implRouter, string, any) {
 	matched := new(string)
 	pan := common.Safely(func() {
 		cfg := router.Config{DefaultTCPClientName: c.DefTCP, DefaultUDPClientName: c.DefUDP}
+		// sets generated for this case live in a directory of their own (the router reads them at load time only)
+		caseDir := ""
+		if len(c.CustomDomSets) > 0 || len(c.CustomPfxSets) > 0 {
+			var err error
+			if caseDir, err = os.MkdirTemp(poolDir, "case-"); err != nil {
+				berr = err
+				return
+			}
+			defer os.RemoveAll(caseDir)
+		}
 		for _, n := range c.DomSets {
-			cfg.DomainSets = append(cfg.DomainSets, domainset.Config{Name: n, Type: "text", Path: filepath.Join(poolDir, n+".txt")})
+			rules, custom := c.CustomDomSets[n]
+			if !custom {
+				cfg.DomainSets = append(cfg.DomainSets, domainset.Config{Name: n, Type: "text", Path: filepath.Join(poolDir, n+".txt")})
+				continue
+			}
+			var sb strings.Builder
+			for _, r := range rules {
+				sb.WriteString(r.Kind + ":" + r.Val + "\n")
+			}
+			path, typ := filepath.Join(caseDir, n+".txt"), "text"
+			if contains(c.GobDomSets, n) {
+				// text -> Builder -> gob file -> BuilderFromGob: the threshold-dependent matchers
+				b, err := domainset.BuilderFromText(sb.String())
+				if err != nil {
+					berr = fmt.Errorf("harness: custom domain set %s: %w", n, err)
+					return
+				}
+				path, typ = filepath.Join(caseDir, n+".gob"), "gob"
+				f, err := os.Create(path)
+				if err == nil {
+					err = b.WriteGob(f)
+					f.Close()
+				}
+				if err != nil {
+					berr = fmt.Errorf("harness: custom domain set %s: %w", n, err)
+					return
+				}
+			} else if err := os.WriteFile(path, []byte(sb.String()), 0o644); err != nil {
+				berr = err
+				return
+			}
+			cfg.DomainSets = append(cfg.DomainSets, domainset.Config{Name: n, Type: typ, Path: path})
 		}
 		for _, n := range c.PfxSets {
-			cfg.PrefixSets = append(cfg.PrefixSets, prefixset.Config{Name: n, Path: filepath.Join(poolDir, n+".txt")})
+			ps, custom := c.CustomPfxSets[n]
+			if !custom {
+				cfg.PrefixSets = append(cfg.PrefixSets, prefixset.Config{Name: n, Path: filepath.Join(poolDir, n+".txt")})
+				continue
+			}
+			path := filepath.Join(caseDir, n+".txt")
+			if err := os.WriteFile(path, []byte(strings.Join(ps, "\n")+"\n"), 0o644); err != nil {
+				berr = err
+				return
+			}
+			cfg.PrefixSets = append(cfg.PrefixSets, prefixset.Config{Name: n, Path: path})
 		}
 		for _, rs := range c.Routes {
 			rc, err := rs.config()
